@@ -63,6 +63,26 @@ T = {
  'C09-d': ('C09', "output(): sparse 'lambda' message when the evaluator is not an output party", "output set excluding the evaluator", ['C09'], False, ''),
  'C10-c': ('C10', "same site as C04-a", "see C04-a", ['C04'], False, 'after the first-round strengthening'),
  'C10-d': ('C10', "check_dvalue(): length check only for the first bucket", "'dvalue' MAC list truncated for a later bucket", ['C04'], False, ''),
+ 'C11-c': ('C11', "avx2 transpose: rest columns only handled when >= 16 (an 8-column tail is skipped)", "OT length in 128k+89..128k+96 on an AVX2 host", ['C11', 'C20'], False, ''),
+ 'C11-d': ('C11', "send_correlated(): batched hashing, batch offset missing in one of the two tweaks", "OT length > 2048 and choice bit 1 at an index >= 2048", ['C11'], False, ''),
+ 'C12-c': ('C12', "output(): 'lambda' and 'output wire shares' of the evaluator received concurrently", "non-evaluator output party; monitor one receive outstanding per peer", ['C12'], False, ''),
+ 'C12-d': ('C12', "garble(): garbled-gate chunks sent with try_join_all after the loop", "> 1000 AND gates (two or more chunks)", ['C12'], False, ''),
+ 'C13-c': ('C13', "init_channel() moved from schedule() to run()", "an MPC message overtakes the run request (n = 3 or delayed response)", ['C13'], False, ''),
+ 'C13-d': ('C13', "run(): early return skips Stop for a party without output destination (same idea as C13-b)", "policy without output destination", ['C13'], False, ''),
+ 'C14-c': ('C14', "run(): internal Run in a wrong state loses the state (same idea as C14-b)", "stray run queued at the scheduling leader", ['C14'], False, 'after the first-round strengthening'),
+ 'C14-d': ('C14', "validate(): an identical validate replaces the parked one", "follower in ValidateRequested (validate before its schedule), exact replay of the request", ['C14'], True, 'C14: duplicate validate is also invalid in ValidateRequested; coordination order with validate first in the quick tier'),
+ 'C15-c': ('C15', "cancel(): SendingConsts arm builds a fresh client when the consts task failed", "cancel while the party's own constants exchange is failing", ['C15', 'C17'], True, 'C15: cancel at every point after an injected failure of the own constants exchange'),
+ 'C15-d': ('C15', "run(): Cancelled suppressed once the result delivery has started", "cancel while the result notification is in flight to a slow destination", ['C15'], True, 'explorer: notifications to the output destination can be held in flight; C15 cancels in that window'),
+ 'C16-c': ('C16', "schedule(): leader inspects only the first validate response", "n >= 3, mismatch at one follower, the compatible follower answers first", ['C16'], False, ''),
+ 'C16-d': ('C16', "Policy::program_hash(): lines hashed without separators (same idea as C16-a)", "programs differing only in line-break placement", ['C16'], False, 'after the first-round strengthening'),
+ 'C17-c': ('C17', "run(): constants sent sequentially, only the last result checked", ">= 3 parties, consts call failing towards a non-last peer", ['C17'], False, 'after the first-round strengthening (three-party failure batches)'),
+ 'C17-d': ('C17', "cancel(): notify_waiters() instead of notify_one()", "leader cancelled while compiling (notification lost), follower cancelled later", ['C17'], True, 'C17: two-cancel family; a cancelled policy with nothing in flight must hold no permit at quiescence'),
+ 'C18-c': ('C18', "mpc(): dedup without sort (same idea as C18-a)", "non-adjacent repeated output index", ['C18'], False, ''),
+ 'C18-d': ('C18', "#[instrument] on mpc(): span field indexes input_regs[p_own] before validation", "invalid own index and a tracing subscriber that enables the INFO span", ['C18'], True, 'C18 (and a quarter of C01): every case also runs under a subscriber that enables all spans and events'),
+ 'C19-c': ('C19', "reader drop skips the seek when its buffer is empty (same idea as C19-a)", "reader dropped before any item was pulled, then append", ['C19'], False, ''),
+ 'C19-d': ('C19', "init_and_shares(): short tail folded into the last chunk", "1001..1249 AND gates and differing tmp_dir choices", ['C19', 'C01'], False, ''),
+ 'C20-c': ('C20', "AesRng::fill_bytes (same idea as C20-b)", "len % 16 != 0 and (len/16) % 8 != 0", ['C20'], False, ''),
+ 'C20-d': ('C20', "avx2 handle_rest_cols: contiguous copy of the ragged block", "rows >= 256 and cols % 128 != 0", ['C20'], False, ''),
 }
 rows=[]
 for sid,(prop,site,needs,caught,missed,strength) in sorted(T.items()):
